@@ -542,12 +542,43 @@ func c11Globals(c *Ctx, R string) {
 	// stores into the shared parsed rule / PromQL AST: allowed only on values the function (or, for a
 	// pointer parameter, every caller) allocated itself, and never through a shared element or pointer field
 	nShared, nSetup := 0, 0
+	// the state of a check: the check types and every struct of internal/checks they hold in a field
+	checkState := map[string]bool{}
+	if R == "C11-R3" {
+		var addT func(t types.Type, depth int)
+		addT = func(t types.Type, depth int) {
+			n := namedOf(t)
+			if n == nil || n.Obj().Pkg() == nil || relPkg(n.Obj().Pkg().Path()) != "internal/checks" || depth > 3 {
+				if sl, ok := t.Underlying().(*types.Slice); ok && depth <= 3 {
+					addT(sl.Elem(), depth+1)
+				}
+				return
+			}
+			q := typeQName(n)
+			if checkState[q] {
+				return
+			}
+			st, ok := n.Underlying().(*types.Struct)
+			if !ok {
+				return
+			}
+			checkState[q] = true
+			for i := 0; i < st.NumFields(); i++ {
+				addT(st.Field(i).Type(), depth+1)
+			}
+		}
+		for _, tn := range checkerTypes(c, R) {
+			addT(tn.Type(), 0)
+		}
+	}
 	isSharedType := func(owner string) bool {
 		if R == "C09-R4" {
 			// what match/ignore conditions read: the YAML side of a rule and the entry, not the PromQL tree
 			return strings.HasPrefix(owner, "internal/parser.Yaml") || owner == "internal/parser.Rule" || owner == "internal/parser.AlertingRule" || owner == "internal/parser.RecordingRule" || owner == "internal/discovery.Entry"
 		}
-		return strings.HasPrefix(owner, "github.com/prometheus/prometheus/promql/parser.") || strings.HasPrefix(owner, "internal/parser.") || owner == "internal/discovery.Entry"
+		// (and the checks themselves: a check instance, and the pattern objects it holds, may be built once and
+		// used for many rules — a memo written from Check() makes one rule's result depend on another's)
+		return strings.HasPrefix(owner, "github.com/prometheus/prometheus/promql/parser.") || strings.HasPrefix(owner, "internal/parser.") || owner == "internal/discovery.Entry" || (R == "C11-R3" && checkState[owner])
 	}
 	freshIn := func(fi *FuncInfo) map[types.Object]string {
 		info := fi.Pkg.TypesInfo
@@ -641,6 +672,132 @@ func c11Globals(c *Ctx, R string) {
 		f := freshIn(fi)
 		freshCache[fi] = f
 		return f
+	}
+	// appends that can land in somebody else's array: a list the function was handed is re-sliced
+	// without a capacity limit (`dst = src[:0]`, the filter-in-place idiom) or grown with slices.Grow
+	// (which hands back the same array when there is room), and then appended to. The list the
+	// workers are handed — the entries, a rule's labels — is shared with every other job.
+	if R == "C11-R3" {
+		nAlias := 0
+		var names []*FuncInfo
+		for fi := range reach {
+			names = append(names, fi)
+		}
+		sort.Slice(names, func(i, j int) bool { return names[i].Name < names[j].Name })
+		for _, fi := range names {
+			if p.IsTestFile(fi.Decl.Pos()) {
+				continue
+			}
+			info := fi.Pkg.TypesInfo
+			sig := fi.Obj.Type().(*types.Signature)
+			isParam := func(o types.Object) bool {
+				for i := 0; i < sig.Params().Len(); i++ {
+					if types.Object(sig.Params().At(i)) == o {
+						return true
+					}
+				}
+				return sig.Recv() != nil && types.Object(sig.Recv()) == o
+			}
+			fresh := getFresh(fi)
+			foreign := func(e ast.Expr) bool {
+				root, _, ok := accessPath(info, e)
+				if !ok || root == nil {
+					return false
+				}
+				if _, isFresh := fresh[root]; isFresh {
+					return false
+				}
+				return isParam(root)
+			}
+			aliases := map[types.Object]ast.Node{}
+			note := func(lhs ast.Expr, rhs ast.Expr, at ast.Node) {
+				r := ast.Unparen(rhs)
+				shared := false
+				switch x := r.(type) {
+				case *ast.SliceExpr:
+					shared = !x.Slice3 && foreign(x.X)
+				case *ast.CallExpr:
+					if fn := Callee(info, x); fn != nil && fn.Pkg() != nil && fn.Pkg().Path() == "slices" && fn.Name() == "Grow" && len(x.Args) == 2 {
+						shared = foreign(x.Args[0])
+					}
+				}
+				if !shared {
+					return
+				}
+				if o := objOf(info, lhs); o != nil {
+					aliases[o] = rhs
+					return
+				}
+				// a field of a literal / of a local struct: any later append through that field
+				if sel, ok := ast.Unparen(lhs).(*ast.SelectorExpr); ok {
+					if o := info.Uses[sel.Sel]; o != nil {
+						aliases[o] = at
+					}
+				}
+			}
+			ast.Inspect(fi.Decl.Body, func(n ast.Node) bool {
+				switch x := n.(type) {
+				case *ast.AssignStmt:
+					if len(x.Lhs) == len(x.Rhs) {
+						for i := range x.Lhs {
+							note(x.Lhs[i], x.Rhs[i], x)
+						}
+					}
+				case *ast.KeyValueExpr:
+					if id, ok := x.Key.(*ast.Ident); ok {
+						if fo, isField := info.Uses[id].(*types.Var); isField && fo.IsField() {
+							r := ast.Unparen(x.Value)
+							shared := false
+							switch y := r.(type) {
+							case *ast.SliceExpr:
+								shared = !y.Slice3 && foreign(y.X)
+							case *ast.CallExpr:
+								if fn := Callee(info, y); fn != nil && fn.Pkg() != nil && fn.Pkg().Path() == "slices" && fn.Name() == "Grow" && len(y.Args) == 2 {
+									shared = foreign(y.Args[0])
+								}
+							}
+							if shared {
+								aliases[fo] = x
+							}
+						}
+					}
+				}
+				return true
+			})
+			if len(aliases) == 0 {
+				continue
+			}
+			// is the alias (or the field) appended to — here, or for a field anywhere in worker-reachable code?
+			for o, at := range aliases {
+				appended := token.NoPos
+				scan := []*FuncInfo{fi}
+				if v, isVar := o.(*types.Var); isVar && v.IsField() {
+					scan = names
+				}
+				for _, g := range scan {
+					ginfo := g.Pkg.TypesInfo
+					ast.Inspect(g.Decl.Body, func(n ast.Node) bool {
+						call, ok := n.(*ast.CallExpr)
+						if !ok || exprStr(call.Fun) != "append" || len(call.Args) < 2 {
+							return true
+						}
+						a0 := ast.Unparen(call.Args[0])
+						if objOf(ginfo, a0) == o {
+							appended = call.Pos()
+						}
+						if sel, isSel := a0.(*ast.SelectorExpr); isSel && ginfo.Uses[sel.Sel] == o {
+							appended = call.Pos()
+						}
+						return true
+					})
+				}
+				if appended != token.NoPos {
+					nAlias++
+					c.Bad(R, "append into a list shared with the caller in "+fi.Name, at.Pos(), "`"+exprStr(at)+"` keeps the array (and spare capacity) of a list this function was handed, and "+p.Pos(appended)+" appends to it: the elements land in the caller's array — the shared entry list of all scan jobs, or the label list of a group — so other jobs see entries or labels that are not theirs, depending on which job ran first")
+				}
+			}
+		}
+		c.Check(nAlias == 0, R, "no append into a re-sliced or grown list of the caller in worker-reachable code", token.NoPos, "0 sites", itoa(nAlias)+" sites")
 	}
 	for fi := range reach {
 		if p.IsTestFile(fi.Decl.Pos()) {
